@@ -15,7 +15,12 @@ type SeqOp struct {
 	V  string `json:"v"`
 	D  int64  `json:"d"`
 	Fn string `json:"fn"`
+	Lo int    `json:"lo"`
+	Hi int    `json:"hi"`
 }
+
+func balKey(i int) string { return "b" + strconv.Itoa(i) }
+func balVal(i int) string { return "v" + strconv.Itoa(1000000+i) }
 
 // SeqProgram is a sequential program for one container instance.
 type SeqProgram struct {
@@ -205,7 +210,7 @@ func runSeqMap(p *SeqProgram, tr int, tw *TraceWriter) {
 	tw.Write(hdr)
 	prev := m.Size()
 	for _, op := range p.Ops {
-		e := &Event{Ev: "op", Tr: tr, Op: op.Op, K: op.K, V: op.V, Fn: op.Fn, Rv: Nil, C0: prev}
+		e := &Event{Ev: "op", Tr: tr, Op: op.Op, K: op.K, V: op.V, Fn: op.Fn, Rv: Nil, C0: prev, Lo: op.Lo, Hi: op.Hi}
 		runMapOp(m, op, e)
 		e.C1 = m.Size()
 		prev = e.C1
@@ -233,8 +238,50 @@ func runMapOp(m MapAPI, op SeqOp, e *Event) {
 	case "Delete":
 		m.Delete(op.K)
 	case "Range":
-		m.Range(visitor(op.Fn, &e.Vis))
+		// ballast keys are counted (n) when they carry their own value, anything else is listed
+		seenBal := map[string]bool{}
+		inner := visitor(op.Fn, &e.Vis)
+		visits := 0
+		stop := -1
+		if strings.HasPrefix(op.Fn, "stop:") {
+			stop, _ = strconv.Atoi(op.Fn[5:])
+		}
+		m.Range(func(k, v string) bool {
+			if len(k) > 1 && k[0] == 'b' {
+				if i, err := strconv.Atoi(k[1:]); err == nil && v == balVal(i) && !seenBal[k] {
+					seenBal[k] = true
+					e.N++
+					visits++
+					return !(stop > 0 && visits >= stop)
+				}
+			}
+			visits++
+			inner(k, v)
+			return !(stop > 0 && visits >= stop)
+		})
 		sort.Slice(e.Vis, func(i, j int) bool { return e.Vis[i].K < e.Vis[j].K })
+	case "BulkStore":
+		for i := op.Lo; i <= op.Hi; i++ {
+			m.Store(balKey(i), balVal(i))
+		}
+	case "BulkLoad":
+		for i := op.Lo; i <= op.Hi; i++ {
+			if v, ok := m.Load(balKey(i)); ok {
+				e.N++
+				if v == balVal(i) {
+					e.X++
+				}
+			}
+		}
+	case "BulkDelete":
+		for i := op.Lo; i <= op.Hi; i++ {
+			if v, ok := m.LoadAndDelete(balKey(i)); ok {
+				e.N++
+				if v == balVal(i) {
+					e.X++
+				}
+			}
+		}
 	case "Clear":
 		m.Clear()
 	case "Size":
